@@ -259,7 +259,7 @@ fn circ_diff(a: f64, b: f64) -> f64 { let d = (a - b).rem_euclid(std::f64::const
 fn check_angle_deg(d: f32, r: &mut Report) { check_angle_impl(d as f64, r) }
 fn check_angle(k: i32, r: &mut Report) {
     // k indexes the angle lattice
-    let deg: f64 = if k.abs() <= 480 { k as f64 * 7.5 } else { [1e-6f64, 1e4, 1e6, -1e4, -1e6, 0.1, 33.3, -123.456][(k.abs() as usize - 481) % 8] * 180.0 / std::f64::consts::PI };
+    let deg: f64 = if k.abs() <= 480 { k as f64 * 7.5 } else { [1e-6f64, 1e4, 1e6, -1e4, -1e6, 0.1, 33.3, -123.456, 2e36, -5e36, 1e30, 3e-30][(k.abs() as usize - 481) % 12] * 180.0 / std::f64::consts::PI };
     check_angle_impl(deg, r)
 }
 fn check_angle_impl(deg: f64, r: &mut Report) {
@@ -348,6 +348,12 @@ fn check_wrap_far(i: u64, r: &mut Report) {
 fn check_vec2(x: f32, y: f32, r: &mut Report) {
     r.eval();
     let v = vec2::<f32, ()>(x, y);
+    // the From / Into entry points are the to_* methods
+    {
+        use re::math::angle::PolarVec;
+        if let (Ok(a), Ok(b)) = (caught(|| PolarVec::from(v)), caught(|| v.to_polar())) { if a.r().to_bits() != b.r().to_bits() || a.az().to_rads().to_bits() != b.az().to_rads().to_bits() { r.violation(format!("polar-from|{x:e},{y:e}"), format!("PolarVec::from({v:?}) = {a:?} but to_polar() = {b:?}"), obj! {"kind" => "vec2", "x" => fbits(x), "y" => fbits(y)}); return; }
+            let (c, d): (re::math::Vec2, re::math::Vec2) = (b.into(), b.to_cart()); if c.0.map(f32::to_bits) != d.0.map(f32::to_bits) { r.violation(format!("polar-into|{x:e},{y:e}"), format!("Vec2::from({b:?}) = {c:?} but to_cart() = {d:?}"), obj! {"kind" => "vec2", "x" => fbits(x), "y" => fbits(y)}); return; } }
+    }
     let case = || obj! {"kind" => "vec2", "x" => fbits(x), "y" => fbits(y)};
     let key = |cl: &str| format!("{cl}|{x:e},{y:e}");
     let p = match caught(|| v.to_polar()) { Ok(p) => p, Err(e) => { r.violation(key("to_polar-panic"), e, case()); return; } };
@@ -365,6 +371,11 @@ fn check_vec2(x: f32, y: f32, r: &mut Report) {
 fn check_vec3(x: f32, y: f32, z: f32, r: &mut Report) {
     r.eval();
     let v = vec3::<f32, ()>(x, y, z);
+    {
+        use re::math::angle::SphericalVec;
+        if let (Ok(a), Ok(b)) = (caught(|| SphericalVec::from(v)), caught(|| v.to_spherical())) { if a.r().to_bits() != b.r().to_bits() || a.az().to_rads().to_bits() != b.az().to_rads().to_bits() || a.alt().to_rads().to_bits() != b.alt().to_rads().to_bits() { r.violation(format!("spherical-from|{x:e},{y:e},{z:e}"), format!("SphericalVec::from({v:?}) = {a:?} but to_spherical() = {b:?}"), obj! {"kind" => "vec3", "x" => fbits(x), "y" => fbits(y), "z" => fbits(z)}); return; }
+            let (c, d): (re::math::Vec3, re::math::Vec3) = (b.into(), b.to_cart()); if c.0.map(f32::to_bits) != d.0.map(f32::to_bits) { r.violation(format!("spherical-into|{x:e},{y:e},{z:e}"), format!("Vec3::from({b:?}) = {c:?} but to_cart() = {d:?}"), obj! {"kind" => "vec3", "x" => fbits(x), "y" => fbits(y), "z" => fbits(z)}); return; } }
+    }
     let case = || obj! {"kind" => "vec3", "x" => fbits(x), "y" => fbits(y), "z" => fbits(z)};
     let key = |cl: &str| format!("{cl}|{x:e},{y:e},{z:e}");
     let s = match caught(|| v.to_spherical()) { Ok(p) => p, Err(e) => { r.violation(key("to_spherical-panic"), e, case()); return; } };
@@ -410,7 +421,7 @@ fn check_polar_first(rr: f32, azd: f32, altd: f32, r: &mut Report) {
 
 fn run_angle(cfg: &Cfg) -> ! {
     let mut rep = Report::new();
-    rep.merge(par_range(cfg, 2 * 488 + 1, |i, r| check_angle(i as i32 - 488, r)));
+    rep.merge(par_range(cfg, 2 * 492 + 1, |i, r| check_angle(i as i32 - 492, r)));
     rep.merge(par_range(cfg, 1441, |i, r| check_angle_deg(i as f32 * 0.5 - 360.0 + 0.125, r)));
     rep.merge(par_range(cfg, if cfg.quick() { 600_000 } else { 6_000_000 }, check_wrap_far));
     let mags = [1e-9f32, 1e-6, 1.0, 1e4];
@@ -452,7 +463,7 @@ fn run_angle(cfg: &Cfg) -> ! {
     let _: Angle = Angle::ZERO;
     rep.sample(0, || obj! {"angle_deg" => -1500.0, "wrap_interval_turns" => vec![0.0, 1.0], "vec2" => vec![-2e-7, 2e-7], "vec3" => vec![0.0, -5e-7, 0.0]});
     rep.finish(cfg, "exploration",
-        "angles k*7.5 deg for |k|<=480 (+-10 turns) with +-1 ulp neighbours and {1e-6,1e4,1e6,...} rad: unit conversions in all directions, sin/cos/sin_cos, operators/clamp/min/max on the magnitude, wrap into 7 intervals x 3 unit spellings (in range without slack, congruent), also for 600 000 (thorough 6 000 000) inputs 80 .. 16 000 revolutions away; Affine/Linear/Lerp trait entry points on angles; 2-D and 3-D vector lattices x magnitudes {1e-9,1e-6,1,1e4} minus zero, plus a 9^3 lattice mixing magnitudes 1e-6..1e3 per component (near-axis and near-pole vectors): radius = length, azimuth/altitude ranges and values vs f64 atan2, Cartesian->polar/spherical->Cartesian and the reverse order round trips; polar/spherical -> Cartesian components vs f64 trigonometry of the stored angle (2e-6), also for azimuths of +-3, +-100, +-1000, 5000 and -20000 turns. non-trivial = wrapped from outside the interval / round trip verified.",
+        "angles k*7.5 deg for |k|<=480 (+-10 turns) with +-1 ulp neighbours and {1e-6, 1e4, 1e6, 1e30, 2e36, 5e36, ...} rad: unit conversions in all directions, sin/cos/sin_cos, operators/clamp/min/max on the magnitude, wrap into 7 intervals x 3 unit spellings (in range without slack, congruent), also for 600 000 (thorough 6 000 000) inputs 80 .. 16 000 revolutions away; Affine/Linear/Lerp trait entry points on angles; 2-D and 3-D vector lattices x magnitudes {1e-9,1e-6,1,1e4} minus zero, plus a 9^3 lattice mixing magnitudes 1e-6..1e3 per component (near-axis and near-pole vectors): radius = length, azimuth/altitude ranges and values vs f64 atan2, Cartesian->polar/spherical->Cartesian and the reverse order round trips; polar/spherical -> Cartesian components vs f64 trigonometry of the stored angle (2e-6), also for azimuths of +-3, +-100, +-1000, 5000 and -20000 turns. non-trivial = wrapped from outside the interval / round trip verified.",
         &["std trigonometry; tolerances 1e-4 relative (coordinates), 1e-4 rad (angles), 1e-6 relative (unit conversions)"])
 }
 
